@@ -15,6 +15,8 @@
       exact [size] in place of the floating-point estimate), and the loop of [run]. *)
 From WG Require Import Base.Prelude.
 
+Module HBallM.
+
 Definition graph := list (list nat).
 Definition succs (g : graph) (v : nat) : list nat := nth v g [].
 Definition getb (l : list bool) (v : nat) : bool := nth v l false.
@@ -255,3 +257,7 @@ Definition regs_sync (g : graph) (t : nat) (c0 : list (list N)) : list (list N) 
     (5-bit registers for fewer than 2^32 elements) *)
 Definition hb_refused (hll8 : bool) (log2m : N) : bool :=
   if hll8 then false else negb (N.eqb ((5 * 2 ^ log2m) mod 64) 0).
+
+
+End HBallM.
+Export HBallM.
